@@ -455,6 +455,100 @@ func (e *env) replica(t *testing.T, wal bool, ahead bool, op func(c *lab.Cluster
 	e.judge(col, before, after, beforeImg, afterImg, "db")
 }
 
+// replicaFork: a former primary that committed one transaction of its own at the TXID the new primary also used (a fork
+// of equal length) rejoins and is sent a snapshot ending at the very TXID its own log ends with; crash at every point.
+func (e *env) replicaFork(t *testing.T, wal bool) {
+	c := lab.NewCluster(10 * time.Second)
+	defer c.Close()
+	col := &collector{base: e.base}
+	c.Defaults = func(cfg *lab.NodeConfig) { cfg.DemoteDelay = 3 * time.Second }
+	c.AddNode("P", true, nil)
+	c.AddNode("R1", true, func(cfg *lab.NodeConfig) { cfg.WrapOS = col.wrapOS })
+	col.live = c.Nodes["R1"].Cfg.Dir
+	if err := c.Start("P"); err != nil || c.WaitPrimary(5*time.Second) == nil {
+		e.res.Harness = "cluster start failed"
+		return
+	}
+	P, R := c.Nodes["P"], c.Nodes["R1"]
+	defer litefs.VerifSetHook(nil)
+	a := pager.NewConn(P.M, "db", 1, e.c.PageSize)
+	r := a.RunRTx(pager.RTx{Create: true, NewSize: e.c.Start, Final: "DELETE", Outcome: "commit"}, nil)
+	if r.Err == nil && r.Committed {
+		lab.Settle(300 * time.Millisecond)
+		r = a.RunRTx(pager.RTx{Mods: []uint32{2}, Final: "DELETE", Outcome: "commit", ToWAL: wal}, r.Intended)
+	}
+	a.Close()
+	if r.Err != nil || !r.Committed {
+		e.res.Harness = fmt.Sprintf("setup failed: %v at %s", r.Err, r.ErrStep)
+		return
+	}
+	base := r.Intended
+	if err := c.Start("R1"); err != nil {
+		e.res.Harness = "start R1: " + err.Error()
+		return
+	}
+	if ok, why := c.WaitConverged(20*time.Second, nil); !ok {
+		e.res.Harness = "setup did not converge: " + why
+		return
+	}
+	commit := func(n *lab.Node, owner uint64, pg uint32) (*oracle.Image, error) {
+		cn := pager.NewConn(n.M, "db", owner, e.c.PageSize)
+		defer cn.Close()
+		if wal {
+			w := cn.RunWTx(pager.WTx{Frames: []uint32{1, pg}, Outcome: "commit"}, base)
+			if w.Err != nil || !w.Committed {
+				return nil, fmt.Errorf("%v at %s", w.Err, w.ErrStep)
+			}
+			return w.Intended, nil
+		}
+		x := cn.RunRTx(pager.RTx{Mods: []uint32{pg}, Final: "DELETE", Outcome: "commit"}, base)
+		if x.Err != nil || !x.Committed {
+			return nil, fmt.Errorf("%v at %s", x.Err, x.ErrStep)
+		}
+		return x.Intended, nil
+	}
+	c.Net.Block("P", "R1")
+	imgA, err := commit(P, 11, 2)
+	if err != nil {
+		e.res.Harness = "P's transaction: " + err.Error()
+		return
+	}
+	P.Store.Demote()
+	if !lab.WaitFor(40*time.Second, R.Store.IsPrimary) {
+		e.res.Harness = "R1 did not take over"
+		return
+	}
+	imgB, err := commit(R, 12, 3)
+	if err != nil {
+		e.res.Harness = "R1's transaction: " + err.Error()
+		return
+	}
+	R.Store.Demote()
+	if !lab.WaitFor(40*time.Second, func() bool { return P.Store.IsPrimary() && !R.Store.IsPrimary() }) {
+		e.res.Harness = "P did not become primary again"
+		return
+	}
+	before := posOf(R.DB("db"))
+	if before[0] != posOf(P.DB("db"))[0] || before == posOf(P.DB("db")) {
+		e.res.Harness = fmt.Sprintf("no fork of equal length: R1 %v P %v", before, posOf(P.DB("db")))
+		return
+	}
+	col.on = true
+	col.hookStoreLazy(func() *litefs.Store { return R.Store })
+	c.Net.Unblock("P", "R1")
+	ok, why := c.WaitConverged(40*time.Second, nil)
+	col.snap("end of operation")
+	col.on = false
+	litefs.VerifSetHook(nil)
+	if !ok {
+		e.viol("C01/no-convergence/"+e.c.H, "the forked node did not converge: %s", why)
+		return
+	}
+	after := posOf(R.DB("db"))
+	_ = R.Stop()
+	e.judge(col, before, after, imgB, imgA, "db")
+}
+
 func (col *collector) hookStoreLazy(get func() *litefs.Store) {
 	litefs.VerifSetHook(func(site string, obj any, a int64, b bool) {
 		db, ok := obj.(*litefs.DB)
@@ -726,6 +820,8 @@ func run1(t *testing.T, c Case) (res Result) {
 				cl.Net.Unblock("P", "R1")
 				return cur, nil
 			}, false)
+		case "H11c-replica-fork-resnapshot":
+			e.replicaFork(t, c.Variant%2 == 1)
 		case "H13-replica-tombstone":
 			e.replica(t, c.Variant%2 == 1, false, func(cl *lab.Cluster, P *lab.Node, a *pager.Conn, img *oracle.Image) (*oracle.Image, error) {
 				a.Close()
@@ -758,7 +854,7 @@ func TestCheck(t *testing.T) {
 	}{
 		{"H1-first-tx", 6}, {"H2-grow", 3}, {"H3-shrink", 3}, {"H4-multi-segment", 3}, {"H5-rollback-after-spill", 3},
 		{"H6-wal-fresh", 3}, {"H7-wal-after-restart", 2}, {"H7b-wal-second-tx", 2}, {"H8-sqlite-checkpoint", 4}, {"H8b-wal-tx-after-checkpoint", 2}, {"H9-litefs-recover", 2},
-		{"H12-drop", 2}, {"H14-import", 4}, {"H10-replica-incremental", 2}, {"H10w-replica-incremental-wal", 2}, {"H11-replica-snapshot", 2}, {"H11b-replica-resnapshot", 2}, {"H15-restore-from-backup", 2}, {"H13-replica-tombstone", 2},
+		{"H12-drop", 2}, {"H14-import", 4}, {"H10-replica-incremental", 2}, {"H10w-replica-incremental-wal", 2}, {"H11-replica-snapshot", 2}, {"H11b-replica-resnapshot", 2}, {"H11c-replica-fork-resnapshot", 2}, {"H15-restore-from-backup", 2}, {"H13-replica-tombstone", 2},
 	}
 	type geo struct {
 		ps    int
